@@ -706,3 +706,13 @@ func (vc *VC) renderOpt(o *Obligation, wantModel bool, mode int) string {
 	}
 	return b.String()
 }
+
+// at: element i of slice s in heap array h, as a function symbol with the index as a direct
+// argument (so that quantified facts about s[i] match ground accesses whatever arithmetic form the
+// index has). Defined by a triggered axiom.
+func (vc *VC) at(elem Sort, h, sl, idx string) string {
+	name := "at." + sortTag(elem)
+	vc.decl(name, fmt.Sprintf("(declare-fun %s ((Array Int (Array Int %s)) Slice Int) %s)", name, elem, elem))
+	vc.decl(name+"_def", fmt.Sprintf("(assert (forall ((h (Array Int (Array Int %s))) (s Slice) (i Int)) (! (= (%s h s i) (select (select h (s_arr s)) (+ (s_off s) i))) :pattern ((%s h s i)))))", elem, name, name))
+	return fmt.Sprintf("(%s %s %s %s)", name, h, sl, idx)
+}
